@@ -50,7 +50,7 @@ add("C01",
     "period dependence, stochastic transitions with symbolic probabilities, colliding parameter names) and every entry of every "
     "period's value array is decided equal to an independent backward-induction reference, including the -inf flag; JIT on/off. "
     "Period t is checked as one Bellman step from an arbitrary next-period array once period t+1 has been established (induction).",
-    "real-number model of floats; template family, grid sizes (<=5, thorough 9) and horizons (<=3, thorough 4) as listed in "
+    "real-number model of floats; template family, grid sizes (<=5, thorough up to 33x17) and horizons (<=3, thorough up to 10) as listed in "
     "evidence; template preconditions = the property's 'supported model' conditions",
     "DESIGN.md section 7 C01")
 add("C05",
@@ -70,7 +70,7 @@ add("C10",
     "DESIGN.md section 7 C10")
 add("C11",
     "Algebraic oracles between symbolic runs of the real solve function: affine utility transformation with symbolic a>0, b, "
-    "beta; beta=0 gives the one-period maxima; horizon independence for T in {1,2,3}; degenerate stochastic transition (one-hot "
+    "beta; beta=0 gives the one-period maxima; horizon independence for T in {1,2,3} (thorough up to 5); degenerate stochastic transition (one-hot "
     "rows selected by symbolic integers) equals the deterministic model.",
     "real-number model of floats; template family and sizes as listed; for the 36-choice template the scale a is fixed to 2 and "
     "1/2; probability rows sum to one in the affine law",
@@ -95,7 +95,8 @@ add("C04",
     "Decidable core: with a symbolic seed and PRNG keys as terms of a free algebra, the label map is the exact inverse CDF of the "
     "selected row for all rows and all u (frequencies then follow from the trusted uniformity of the PRNG), zero-probability "
     "labels are never drawn, the keys consumed over periods x variables x agents are pairwise different for every seed and used "
-    "once (independence under JAX's key contract), period 0 is seed-free, equal seeds give identical frames.",
+    "once (independence under JAX's key contract), period 0 is seed-free, equal seeds give identical frames; counterexamples are "
+    "replayed on a real eager run (keys consumed; probability rows handed to the draw vs rows selected by the simulated states, choices and period).",
     "statistical quality of threefry is trusted, not checked; 2-3 agents, T=2 (thorough 3-4); templates TE, TK",
     "DESIGN.md section 7 C04")
 add("C13",
@@ -129,7 +130,8 @@ add("C09",
     "Per PYTHONHASHSEED (fresh interpreter each): one generated solve and one generated simulate function object are executed "
     "symbolically in the history f(p1); f(p2); real XLA call on concrete params of three leaf types; f(p1); z3 decides third == "
     "first, second == reference(p2), rebuilt function == first build; concrete results equal the symbolic terms; model.functions and "
-    "all argument containers/leaves are unchanged (identity); results are compared across the enumerated hash seeds.",
+    "all argument containers/leaves are unchanged (identity); results are compared across the enumerated hash seeds. In-place "
+    "history f(p); update the same dict p; f(p) for solve and solve_and_simulate == a fresh function on the new values.",
     "hash seeds/processes and call histories other than the enumerated ones are outside; real-number model of floats",
     "DESIGN.md section 7 C09")
 add("C12",
@@ -137,8 +139,8 @@ add("C12",
     "ModelInitilizationError) and the grid constructors; creation-time rejections of get_lcm_function per shape. Completion: per "
     "shape of a catalogue, jax.make_jaxpr(solve) (abstract tracing = no Python-level error for any parameter values of these "
     "shapes) and symbolic execution of simulate on all paths with symbolic params, value arrays and states; the import of the entry "
-    "point. Six accepted-but-failing shapes are recorded as known findings.",
-    "catalogue of 31 accepted + 5 rejected shapes; 2 agents; CrossHair timeout 200 s; shapes outside the catalogue are outside the claim",
+    "point. Seven accepted-but-failing shapes are recorded as known findings.",
+    "catalogue of 31 accepted + 7 rejected shapes; 2 agents; CrossHair timeout 200 s; shapes outside the catalogue are outside the claim",
     "DESIGN.md section 7 C12", technique="CrossHair (z3) on the validators; abstract tracing + symbolic execution of the real JAX pipeline with path forking (z3) for completion", engine="symjax+crosshair")
 add("C17",
     "(i) create_filter_mask is executed symbolically with every filter a symbolic boolean table over (period, its variables): each "
